@@ -336,6 +336,9 @@ Section Conf.
       let _ := (ATTRS, OBJS) in   (* used by codecs not dispatched yet: keeps the signature stable *)
       let n := t_name d in
       if String.eqb n "kmip.RequestBatchItem" then conf_request_item st d tag fs
+      else if String.eqb n "payloads.GetResponsePayload" then conf_typed_object 2 st d tag fs
+      else if String.eqb n "payloads.RegisterRequestPayload" then conf_typed_object 2 st d tag fs
+      else if String.eqb n "payloads.ExportResponsePayload" then conf_typed_object 3 st d tag fs
       else None.
   End ConfCustoms.
 
